@@ -1,7 +1,7 @@
 (** Extraction of the C15 model (MM15/Codec.v) for the correspondence check.
     Directives: [ExtrOcamlBasic] only.  N/positive/nat stay Coq inductives. *)
 From Coq Require Import Extraction ExtrOcamlBasic.
-From Pi2 Require Import MM15.Codec.
+From Pi2 Require Import MM15.Codec MM15.Replay.
 Extraction Language OCaml.
 Extraction "mm15_model.ml" is_space lex_space decode_word encode split_steps parse_lemmas split_proof
-  import_proof tokenize proof_field mandatory import_statement classify lookup appendixB_decode appendixB_stream.
+  import_proof tokenize proof_field mandatory import_statement classify lookup appendixB_decode appendixB_stream replay_marks_N.
